@@ -1051,9 +1051,21 @@ func (bc *Blockchain) resetStateInternal(height uint32, stage stateChangeStage) 
 			keysCnt             = new(int)
 		)
 		for i := height + 1; i <= currHeight; i++ {
-			_, err := upperCache.DeleteBlock(bc.GetHeaderHash(i))
+			hash := bc.GetHeaderHash(i)
+			blk, err := upperCache.GetBlock(hash)
+			if err != nil {
+				return fmt.Errorf("error while retrieving block %d: %w", i, err)
+			}
+			_, err = upperCache.DeleteBlock(hash)
 			if err != nil {
 				return fmt.Errorf("error while removing block %d: %w", i, err)
+			}
+			// DeleteBlock drops the header as well, but it's still referenced by the
+			// current header pointer (reset at the further stage) and is needed to
+			// restore header hashes if the process is interrupted and restarted.
+			err = upperCache.StoreHeader(&blk.Header)
+			if err != nil {
+				return fmt.Errorf("error while keeping header %d: %w", i, err)
 			}
 			blocksCnt++
 			if blocksCnt == persistBatchSize {
